@@ -200,6 +200,17 @@ def onlyLeaf (ch : Fin 8 → T K) : Option Nat :=
     | .leaf _ _ q => some q
     | _ => acc) none
 
+/-- the second half of `reb_simulation_update_tree_cell` for an inner node, after its children were updated:
+    recount `node->pt`, free the node when empty, turn it into a leaf when one particle is left -/
+def rebuild (c : Cell K) (g : Grav K) (ch' : Fin 8 → T K) : T K :=
+  let n : Int := Fin.foldl 8 (fun (a : Int) o => a - cnt (ch' o)) 0
+  if n = 0 then .nil
+  else if n = -1 then
+    match onlyLeaf ch' with
+    | some q => .leaf c g q
+    | none => .node c g n ch'   -- unreachable when children are well formed
+  else .node c g n ch'
+
 /-- `reb_simulation_update_tree_cell` without the particle-array side effects: leaves whose
     particle is not inside are dropped and reported; inner nodes recount and derefine. -/
 def sweep (ps : Nat → Pt K) : T K → T K × List Nat
@@ -207,24 +218,23 @@ def sweep (ps : Nat → Pt K) : T K → T K × List Nat
   | .leaf c g q => if inside (ps q) c then (.leaf c g q, []) else (.nil, [q])
   | .node c g _ ch =>
       let r := memo fun o => sweep ps (ch o)
-      let ch' := fun o => (r o).1
-      let ev := (List.finRange 8).flatMap fun o => (r o).2
-      let n : Int := Fin.foldl 8 (fun (a : Int) o => a - cnt (ch' o)) 0
-      if n = 0 then (.nil, ev)
-      else if n = -1 then
-        match onlyLeaf ch' with
-        | some q => (.leaf c g q, ev)
-        | none => (.node c g n ch', ev)   -- unreachable when children are well formed
-      else (.node c g n ch', ev)
+      (rebuild c g (fun o => (r o).1), (List.finRange 8).flatMap fun o => (r o).2)
+
+/-- renumber the particle indices stored in the leaves -/
+def relabel (f : Nat → Nat) : T K → T K
+  | .nil => .nil
+  | .leaf c g q => .leaf c g (f q)
+  | .node c g n ch => .node c g n (memo fun o => relabel f (ch o))
 
 /-- re-insertion of the evicted particles (`reb_simulation_add(r, reinsertme)`), except those flagged
     for removal (`isnan(reinsertme.y)`) -/
 def reinsert (ps : Nat → Pt K) (fuel : Nat) (c : Cell K) (t : T K) (ev : List Nat) : Except Err (T K) :=
   ev.foldlM (fun t q => if ScalarO.le (ps q).y (ps q).y then add ps fuel t c q else .ok t) t
 
-/-- functional form of `reb_simulation_update_tree` for one root cell whose particles stay inside it:
-    sweep, then re-insert.  (The C code re-inserts during the walk and renumbers the particle array by
-    swap-with-last; see notes/C15.md.) -/
+/-- `reb_simulation_update_tree` for one root cell whose particles stay inside it, without the particle array:
+    sweep, then re-insert — the order of operations of the repaired code (fixes/C15-N1: evicted particles are
+    buffered and re-added after the walk).  The version with the particle array, swap-with-last renumbering and
+    several root boxes is `RV.TreeArr.updateA`. -/
 def update (ps : Nat → Pt K) (fuel : Nat) (c : Cell K) (t : T K) : Except Err (T K) :=
   let r := sweep ps t
   reinsert ps fuel c r.1 r.2
